@@ -40,14 +40,15 @@ CONSTANTS NReq,        \* request slots 1..NReq
           IdleTimeouts,\* subset of 0..3: 0 None, 1 Some(0), 2 small (a Tick exceeds it), 3 large
           Protos,      \* subset of BOOLEAN: TRUE = HTTP/2 requests, FALSE = HTTP/1.1
           Faults,      \* subset of {"connect","handshake","close","upgrade"}: environment faults enabled
-          Spurious     \* BOOLEAN: executor may re-poll a request that was not woken
+          Spurious,    \* BOOLEAN: executor may re-poll a request that was not woken
+          AllowDrop    \* BOOLEAN: the last Pool clone may be dropped while requests are outstanding
 
 Req     == 1..NReq
 Origins == 1..NOrig
 Dial    == 1..MaxDial          \* a connection has the id of the dial that created it
 NoH     == [c |-> 0, z |-> FALSE]
 
-VARIABLES cfg,          \* [cap, maxIdle, it]
+VARIABLES cfg,          \* [cap, maxIdle, it, alive]  pool configuration; alive = some Pool clone still exists (PoolRef is weak)
           connecting,   \* SUBSET Origins                      PoolInner.connecting
           waiting,      \* [Origins -> Seq(Req)]               PoolInner.waiting (senders, by checkout id)
           idle,         \* [Origins -> Seq([c, z, at])]        PoolInner.idle, top of the stack = last
@@ -77,7 +78,7 @@ Has(x) == x \in AsBuilt
 IsOpen(c) == conn[c].st = "open" /\ ~conn[c].busy /\ ~conn[c].up
 
 Init ==
-  /\ cfg \in [cap : Caps, maxIdle : MaxIdles, it : IdleTimeouts]
+  /\ cfg \in [cap : Caps, maxIdle : MaxIdles, it : IdleTimeouts, alive : {TRUE}]
   /\ connecting = {}
   /\ waiting = [o \in Origins |-> <<>>]
   /\ idle = [o \in Origins |-> <<>>]
@@ -111,6 +112,7 @@ FirstOpen(ws, ch) == IF \E i \in 1..Len(ws) : ch[ws[i]].st = "open"
 
 \* PoolInner::push(token o, connection c); h2 = c.can_share()
 PushP(p, o, c, h2) ==
+  IF ~cfg.alive THEN p ELSE      \* PoolRef::lock() is None: nothing is registered
   LET cn1 == IF h2 \/ Has("D13") THEN p.cn \ {o} ELSE p.cn
       ws  == p.wt[o]
   IN IF h2
@@ -129,7 +131,7 @@ PushP(p, o, c, h2) ==
                             !.wk = @ \cup (IF rxw[ws[i]] THEN {ws[i]} ELSE {})]
 
 \* does push keep the connection (waiter or idle list)?
-PushKeeps(p, o, h2) == Room(p, o) \/ (~h2 /\ FirstOpen(p.wt[o], p.ch) # 0)
+PushKeeps(p, o, h2) == cfg.alive /\ (Room(p, o) \/ (~h2 /\ FirstOpen(p.wt[o], p.ch) # 0))
 
 \* IdleConnections::pop: from the top; the first expired entry clears the list; closed entries are discarded
 Expired(e) == cfg.it = 2 /\ now > e.at
@@ -154,6 +156,7 @@ RxCloseP(p, k) ==
 \* Repaired: only the owner of the marker clears it and it releases the pure waiters of the origin.
 IsPure(j, o) == co[j].pure /\ co[j].o = o        \* the sender was queued as a pure waiter (tag on the queue entry)
 CancelConnP(p, k) ==
+  IF ~cfg.alive THEN p ELSE
   LET o == co[k].o
       clear == Has("D4") \/ co[k].owner
       rel == ~Has("D2") /\ co[k].owner
@@ -166,6 +169,7 @@ CancelConnP(p, k) ==
 -----------------------------------------------------------------------------
 \* ConnectionPoolService::call -> Pool::checkout
 Issue(r, o, h2) ==
+  /\ cfg.alive
   /\ req[r].st = "new"
   /\ \A q \in 1..(r-1) : req[q].st # "new"            \* slots are used in order (symmetry breaking)
   /\ LET pw == PopWalk(idle[o]) IN
@@ -295,8 +299,11 @@ PollBody(r) ==
             /\ UNCHANGED <<connecting, waiting, idle, chan, co, gc, gh, dl, conn, held, wr, req, dw, ndial>>
        [] co[r].waiter = "Connecting" /\ chan[r].st = "txdropped" /\ co[r].standby ->
             \* released: the attempt it waited for went away. First look for an idle connection
-            \* (PoolInner::pop), else PoolInner::take_over
-            IF PopWalk(idle[co[r].o]).found
+            \* (PoolInner::pop), else PoolInner::take_over; without a pool the checkout fails
+            IF ~cfg.alive
+            THEN /\ FailCheckout(r, "Unavailable", PS)
+                 /\ UNCHANGED <<gc, gh, dl, dw, ndial>>
+            ELSE IF PopWalk(idle[co[r].o]).found
             THEN LET pw == PopWalk(idle[co[r].o])
                      c == pw.h.c
                      p == [PS EXCEPT !.id[co[r].o] = IF conn[c].h2 THEN Append(pw.rest, Entry(c)) ELSE pw.rest]
@@ -453,6 +460,20 @@ Upgrade(c) ==
   /\ ev' = [Ev("Upgrade") EXCEPT !.c = c]
   /\ UNCHANGED <<cfg, connecting, waiting, idle, chan, co, gc, gh, dl, held, wr, req, woken, polled, rxw, dw, ndial, now>>
 
+\* the last clone of the Pool is dropped: PoolInner goes away with its idle connections and its senders
+DropPool ==
+  /\ AllowDrop /\ cfg.alive
+  /\ cfg' = [cfg EXCEPT !.alive = FALSE]
+  /\ LET queued == {k \in Req : \E o \in Origins : \E i \in 1..Len(waiting[o]) : waiting[o][i] = k}
+         dropped == {k \in queued : chan[k].st = "open"}
+     IN /\ chan' = [k \in Req |-> IF k \in dropped THEN [st |-> "txdropped", h |-> NoH] ELSE chan[k]]
+        /\ woken' = Wake({k \in dropped : rxw[k]}, woken)
+  /\ connecting' = {}
+  /\ waiting' = [o \in Origins |-> <<>>]
+  /\ idle' = [o \in Origins |-> <<>>]
+  /\ ev' = Ev("DropPool")
+  /\ UNCHANGED <<co, gc, gh, dl, conn, held, wr, req, polled, rxw, dw, ndial, now>>
+
 Tick ==
   /\ now < MaxTick
   /\ now' = now + 1
@@ -466,6 +487,7 @@ Next ==
   \/ \E d \in Dial, ok \in BOOLEAN : EnvConnect(d, ok) \/ EnvHandshake(d, ok)
   \/ \E c \in Dial : ConnReady(c) \/ PeerClose(c) \/ Upgrade(c)
   \/ Tick
+  \/ DropPool
 
 Spec == Init /\ [][Next]_vars
 
@@ -529,8 +551,11 @@ C14a == [][ev'.e \in {"PollPending", "DialStart"} /\ co[ev'.r].inner \in {"Conne
               => ~UsableIdle(req[ev'.r].o)]_vars
 
 \* C04 (iv): cancelling a request that never used a connection does not destroy a pooled connection
-OpenLive == {c \in Dial : conn[c].st = "open" /\ Live(c) > 0}
-C04iv == [][ev'.e = "Cancel" /\ ev'.stage = "checkout" => OpenLive' = OpenLive]_vars
+\* (the connection the request had taken from the pool at checkout time survives; connections it never
+\* touched are not affected: the idle list and other requests' handles are unchanged by Cancel)
+C04iv == [][\A c \in Dial : cfg.alive /\ ev'.e = "Cancel" /\ ev'.stage = "checkout" /\ co[ev'.r].h.c = c /\ conn[c].st = "open"
+                             => Live(c)' > 0]_vars
+C04ivIdle == [][ev'.e = "Cancel" => idle' = idle]_vars
 \* C04 (kept): an open, ready connection that is handed back is kept if there is room or a waiter
 C04kept == [][\A c \in Dial : ev'.e = "HandBack" /\ ev'.ok /\ ev'.c = c => Live(c)' > 0]_vars
 \* C04 (ii)/(iii): an HTTP/2 request dials only if, when it was issued, no HTTP/2 attempt for its origin
@@ -544,7 +569,7 @@ C04issue == [][ev'.e = "Issue" =>
 C04dial == [][ev'.e \in {"DialStart", "BgDialStart"} /\ req[ev'.r].h2 =>
                 ~\E k \in Req : k # ev'.r /\ co[k].owner /\ co[k].o = req[ev'.r].o /\ co[k].st \in {"active", "bg"}]_vars
 \* C01 (pool part): a request that is not cancelled fails only when its own connection attempt failed
-NoSpuriousError == [][ev'.e = "PollErr" => ev'.kind \in {"Connecting", "Handshaking"}]_vars
+NoSpuriousError == [][ev'.e = "PollErr" => ev'.kind \in {"Connecting", "Handshaking"} \/ ~cfg.alive]_vars
 
 \* C03: nobody is stranded (liveness under FairSpec) ...
 C03live == \A r \in Req : (req[r].st = "checkout") ~> (req[r].st # "checkout")
